@@ -910,6 +910,12 @@ def r40_cbtime(repo, sink):
                 super().__init__(repo)
                 self.pulled = []
                 self.pull_targets = []
+                self.inplace = []
+
+            def aug_assign(self, op, cur, value, node):
+                if isinstance(cur, Sym) and cur.op in ("mul", "add") and "v(" in repr(cur):
+                    self.inplace.append((type(op).__name__, cur))  # numpy: `a += b` writes into a's own array
+                return super().aug_assign(op, cur, value, node)
 
             def call_hook(self, fv, args, kwargs, node, mod):
                 if isinstance(fv, Closure) and getattr(fv.func, "name", "") == "strip_time":
@@ -1008,7 +1014,11 @@ def r40_cbtime(repo, sink):
             return False
 
         why = None
-        if drops_units(strip_copy(r1)):
+        if it.inplace:
+            why = ("the running sum is accumulated in place (`result += ...`) in the array of the first product: that array keeps the type of the "
+                   "first value x weight, so an integer-valued first input followed by a fractional one cannot be added (numpy refuses the cast) "
+                   "- the merger raises instead of returning the sum")
+        elif drops_units(strip_copy(r1)):
             why = (f"result is {strip_copy(r1)!r}: the bare magnitudes of the value inputs are added without converting them to a common unit "
                    "(inputs in km and m are summed as plain numbers and labelled with one of the units)")
         elif sorted(it.pulled[:n_pulls_1]) != sorted((nm, q) for nm in inputs):
